@@ -34,7 +34,7 @@ NULLS = [
     (["N/A", "abc", "none", "- 999.25"], None),
     ([None], None),
 ]
-ORDINARY = ["1", "2.5", "-3", "1000", "0.125", "-999", "999.25", "-999.25", "0", "1e30", "-99999", "5", "-0.0", "7.75"]
+ORDINARY = ["1", "2.5", "-3", "1000", "0.125", "-999", "999.25", "-999.25", "0", "1e30", "-99999", "5", "-0.0", "7.75", "inf", "-inf", "1e999"]
 TEXTS = ["abc", "x1", "--", "N/A"]
 
 
